@@ -57,7 +57,7 @@ def check_wellformed(rec, sig, spaces, sub="roundtrip", text=None):
     text = G.unparse(sig, spaces) if text is None else text
     case = dict(kind="wellformed", text=text)
     npairs = sum(len(a) for part in sig for a in part)
-    rec.case(("wf", text), npairs >= 2)
+    rec.case(("wf", text), npairs >= 2, sample=case if npairs >= 3 else None)
     try:
         s = sig_of(text)
     except Exception as e:
@@ -181,7 +181,7 @@ def check_corrupted(rec, text, c):
     if G.unspecified(c):
         rec.counters["skipped:unspecified-single-comma"] += 1
         return
-    rec.case(("bad", c), True)
+    rec.case(("bad", c), True, sample=case)
     rec.counters["corrupted-must-reject"] += 1
     try:
         s = sig_of(c)
